@@ -403,7 +403,19 @@ def f_safe(ev, value):
 def f_sort(ev, value, reverse=False, case_sensitive=False, attribute=None):
     if attribute is not None:
         raise RefDecline("sort(attribute=) not modelled")
-    return sorted(value, key=_ignore_case(case_sensitive), reverse=reverse)
+    items = list(value)
+    key = _ignore_case(case_sensitive)
+    try:
+        return sorted(items, key=key, reverse=reverse)
+    except TypeError:
+        # "Sort an iterable using Python's sorted": equal but unorderable items ([None, None]) make sorted() raise,
+        # unless the (unspecified) key function wraps them - Python compares containers by identity/equality first.
+        # Only an error that every such key function gives is claimed.
+        try:
+            sorted(items, key=lambda x: [key(x)], reverse=reverse)
+        except TypeError:
+            raise
+        raise RefDecline("sort of equal unorderable items: depends on the unspecified key function")
 
 
 def f_dictsort(ev, value, case_sensitive=False, by="key", reverse=False):
